@@ -298,6 +298,53 @@ fn main() {
 			expect_reject(&mut out, &format!("c01 block n={} second-coinbase-pair", n), &verdict_block(&b, &po), &mut bad);
 		}
 	}
+	// ---- fees near the 40-bit limit of a single kernel: the TOTAL of an aggregate / a block is not
+	// limited to 40 bits; the honest objects must validate and their corrupted variants must not
+	{
+		use std::convert::TryFrom;
+		let big: u64 = (1u64 << 40) - 7;
+		let mk = |i: u32| -> Transaction {
+			let value = (1u64 << 41) + i as u64 * 1000;
+			build::transaction(
+				KernelFeatures::Plain { fee: grin_core::core::FeeFields::try_from(big - i as u64).unwrap() },
+				&[build::input(value, key(7, i)), build::output(value - (big - i as u64), key(8, i))],
+				&kc,
+				&ProofBuilder::new(&kc),
+			)
+			.unwrap()
+		};
+		let big_txs: Vec<Transaction> = (0..3u32).map(mk).collect();
+		for k in [2usize, 3] {
+			let agg = transaction::aggregate(&big_txs[..k]).unwrap();
+			let v = verdict_tx(&agg);
+			out.line(&format!("c01 tx valid big-fees kernels={} total-fee-bits>40", k), &v);
+			if v != "ok" {
+				out.raw(&format!("#ORACLE-FAIL C01 valid aggregate of {} transactions paying {} nanogrin each (total above 2^40) rejected: {}", k, big, v));
+			}
+			// the same aggregate keeping a surplus: one output's amount raised by the part of the
+			// fees above 2^40 - 1 must not balance
+			let mut t = agg.clone();
+			t.body.outputs[0] = mk(5).outputs()[0].clone();
+			t.body.outputs.sort_unstable();
+			cases += 1;
+			expect_reject(&mut out, &format!("c01 tx big-fees kernels={} output-foreign-amount", k), &verdict_tx(&t), &mut bad);
+			let prev = grin_core::core::BlockHeader::default();
+			let fees: u64 = big_txs[..k].iter().map(|t| t.fee()).sum();
+			let rw = reward::output(&kc, &ProofBuilder::new(&kc), &key(9, k as u32), fees, false).unwrap();
+			let blk = Block::new(&prev, &big_txs[..k], Difficulty::min_dma(), rw).unwrap();
+			let po = prev.total_kernel_offset();
+			let vb = verdict_block(&blk, &po);
+			out.line(&format!("c01 block valid big-fees kernels={}", k), &vb);
+			if vb != "ok" {
+				out.raw(&format!("#ORACLE-FAIL C01 valid block collecting {} nanogrin of fees (above 2^40) rejected: {}", fees, vb));
+			}
+			// a coinbase claiming only 2^40 - 1 of those fees (the rest left for someone else)
+			let rw2 = reward::output(&kc, &ProofBuilder::new(&kc), &key(10, k as u32), (1u64 << 40) - 1, false).unwrap();
+			let b2 = Block::new(&prev, &big_txs[..k], Difficulty::min_dma(), rw2).unwrap();
+			cases += 1;
+			expect_reject(&mut out, &format!("c01 block big-fees kernels={} coinbase-claims-only-2^40-1", k), &verdict_block(&b2, &po), &mut bad);
+		}
+	}
 	out.raw(&format!("#STAT c01 corruption cases={} accepted={}", cases, bad));
 	out.flush();
 }
